@@ -83,3 +83,20 @@ for _c in _c11.CONTRACTS:
     if _c.key in ('pywbem_mock/_mainprovider.py::MainProvider.CreateClass', 'pywbem_mock/_mainprovider.py::MainProvider.ModifyClass'):
         _c.home_class_specs = _c11.CLASS_SPECS
         CONTRACTS.append(_c)
+
+# ---- further contracts of this property live in the sibling file C12_res.py (same conventions)
+import importlib.util as _ilu_C12_res
+import os as _os_C12_res
+import sys as _sys_C12_res
+_p_C12_res = _os_C12_res.path.join(_os_C12_res.path.dirname(_os_C12_res.path.abspath(__file__)), 'C12_res.py')
+if _os_C12_res.path.exists(_p_C12_res):
+    _s_C12_res = _ilu_C12_res.spec_from_file_location('contracts_C12_res', _p_C12_res)
+    _m_C12_res = _ilu_C12_res.module_from_spec(_s_C12_res)
+    _sys_C12_res.modules['contracts_C12_res'] = _m_C12_res
+    _sys_C12_res.modules.setdefault('contracts_C12', _sys_C12_res.modules.get('contracts_C12') or _sys_C12_res.modules[__name__])
+    _s_C12_res.loader.exec_module(_m_C12_res)
+    CONTRACTS.extend(_m_C12_res.CONTRACTS)
+    CLASS_SPECS = globals().get('CLASS_SPECS', {})
+    for _k, _v in getattr(_m_C12_res, 'CLASS_SPECS', {}).items():
+        CLASS_SPECS.setdefault(_k, {}).update(_v)
+    LEMMAS = list(globals().get('LEMMAS', [])) + list(getattr(_m_C12_res, 'LEMMAS', []))
